@@ -84,11 +84,16 @@ pub(crate) fn inject(
 
 // ------------------------------------------------------------------ events
 
+/// Hooks must not leave allocations of their own in the thread's tally.
+fn event(ev: impl FnOnce() -> Ev) {
+    untracked(|| crate::verif::event(ev()))
+}
+
 use crate::{
     alloc::ThreadAllocInfo,
     stats::{RawSample, SampleCollection},
     time::TimedOverhead,
-    verif::{event, Ev},
+    verif::{untracked, Ev},
 };
 
 use super::BenchMode;
@@ -127,7 +132,7 @@ pub(crate) fn loop_begin(
     thread_count: usize,
     overheads: &TimedOverhead,
 ) {
-    event(
+    event(|| {
         Ev::new("loop_begin")
             .s("mode", mode_name(mode))
             .u("size", mode.sample_size() as u128)
@@ -146,24 +151,24 @@ pub(crate) fn loop_begin(
                     clamp(overheads.tally_dealloc.picos),
                     clamp(overheads.tally_realloc.picos)
                 ),
-            ),
-    );
+            )
+    });
 }
 
 pub(crate) fn initial_start(taken: bool) {
-    event(Ev::new("initial_start").b("taken", taken));
+    event(|| Ev::new("initial_start").b("taken", taken));
 }
 
 pub(crate) fn test_break() {
-    event(Ev::new("test_break"));
+    event(|| Ev::new("test_break"));
 }
 
 pub(crate) fn tally_clear() {
-    event(Ev::new("tally_clear"));
+    event(|| Ev::new("tally_clear"));
 }
 
 pub(crate) fn tally_snapshot(info: &ThreadAllocInfo) {
-    event(Ev::new("tally_snapshot").raw("info", &Tally::of(info).json()));
+    event(|| Ev::new("tally_snapshot").raw("info", &Tally::of(info).json()));
 }
 
 pub(crate) fn round_end(
@@ -173,6 +178,7 @@ pub(crate) fn round_end(
     samples: &SampleCollection,
     raw_samples: &[RawSample],
 ) {
+    let _tally = crate::verif::sched::TallyGuard::new();
     let stored: Vec<i128> = samples
         .time_samples
         .iter()
@@ -187,7 +193,7 @@ pub(crate) fn round_end(
         .collect::<Vec<_>>()
         .join(",");
 
-    event(
+    event(|| {
         Ev::new("round_end")
             .s("mode", mode_name(mode))
             .u("size", mode.sample_size() as u128)
@@ -196,6 +202,6 @@ pub(crate) fn round_end(
             .u("nsamples", samples.time_samples.len() as u128)
             .u("nalloc", samples.alloc_info_by_sample.len() as u128)
             .u("stored_size", samples.sample_size as u128)
-            .raw("stored", &format!("[{stored}]")),
-    );
+            .raw("stored", &format!("[{stored}]"))
+    });
 }
